@@ -60,10 +60,22 @@ def session(text: str, allow: bool = False):
         if db.project:
             objs.append(db.project)
         for t in db.tables:
-            objs += list(t.columns) + list(t.indexes) + [t.note] + [c.note for c in t.columns]
+            objs += list(t.columns) + list(t.indexes) + [t.note] + [c.note for c in t.columns] + [x.note for x in t.indexes]
         for e in db.enums:
-            objs += list(e.items)
+            objs += list(e.items) + [i.note for i in e.items]
+        for g in db.table_groups:
+            if g.note is not None:
+                objs.append(g.note)
+        if db.project:
+            objs.append(db.project.note)
         for o in objs:
+            for f in (repr, str):                  # textual forms of every object are total too
+                try:
+                    f(o)
+                    renders.append('ok')
+                except Exception as ex:
+                    renders.append(type(ex).__name__)
+                    where = where or '%s(%s) at %s' % (f.__name__, type(o).__name__, _where(ex))
             for kind in ('dbml', 'sql'):
                 if not hasattr(type(o), kind):
                     continue
